@@ -842,6 +842,38 @@ func ruleT4(c *Ctx) {
 				c.check(okGuard, "T4", funcName(f), "filter applied to analyzer diagnostics", st.Pos(),
 					"every analyzer diagnostic passes the settings filter before it is published",
 					"analyzer diagnostics are converted for publishing without passing the settings filter first")
+				// ... and the settings filter is the only thing that decides: no other condition on the diagnostic itself
+				// (its code, range or message) lies between the analyzer and the publication
+				other := ""
+				for _, blk := range blks {
+					for _, cc := range controlDeps(blk) {
+						sl := backSlice(cc.Cond)
+						viaFilter, readsDiag := false, false
+						for v := range sl {
+							if call, ok := v.(*ssa.Call); ok {
+								if cal := call.Common().StaticCallee(); cal != nil && cal.Object() == filterObj {
+									viaFilter = true
+								}
+							}
+							var base ssa.Value
+							switch x := v.(type) {
+							case *ssa.Field:
+								base = x.X
+							case *ssa.FieldAddr:
+								base = x.X
+							}
+							if base != nil && typeHasSuffix(base.Type(), "internal/analyzer.Diagnostic") {
+								readsDiag = true
+							}
+						}
+						if readsDiag && !viaFilter {
+							other = c.P.pos(cc.Cond.Pos())
+						}
+					}
+				}
+				c.check(other == "", "T4", funcName(f), "only the settings filter decides which analyzer diagnostics are published", st.Pos(),
+					"no other condition on the diagnostic guards its conversion",
+					"besides the settings filter another condition on the analyzer diagnostic (at "+other+") decides whether it is published: a warning can be suppressed although its setting is on (e.g. depending on syntax errors elsewhere in the file)")
 			}
 		}
 	}
